@@ -240,8 +240,17 @@ def known_C08(c, r, reason):
     if t == 'gpos-empty' and unread and 'GPOS' in reason: return 'K4c'
     return None
 
+def judge_api(cases, rust, lean, V, wd):
+    """constructor / setter histories inside another property's stream are judged by the C12 invariant oracle"""
+    api = [i for i, c in enumerate(cases) if c.op.startswith('api.')]
+    if api:
+        V2 = Verdicts()
+        o_C12([cases[i] for i in api], [rust[i] for i in api], [lean[i] for i in api], V2, wd)
+        V.failing += [(api[j], r) for j, r in V2.failing]
+
 def o_C08(cases, rust, lean, V, wd):
     check_encoded(cases, rust, V, wd, layout=True, must_succeed=False, known=known_C08, lean=lean)
+    judge_api(cases, rust, lean, V, wd)
     for i, r in enumerate(rust):
         if r.startswith('panic') or r.startswith('crash'):
             V.failing.append((i, 'encode did not return: ' + r))
@@ -252,6 +261,7 @@ def o_C09(cases, rust, lean, V, wd):
             V.failing.append((i, 'accepted although the framing is not exact (reference: %s)' % l))
 
 def o_C10(cases, rust, lean, V, wd):
+    judge_api(cases, rust, lean, V, wd)
     ref = second_pass(cases, rust, {'enc.rr': 'dec.rr', 'enc.question': 'dec.question', 'enc.name': 'dec.name', 'enc.flags': 'dec.flags',
                                     'enc.type': 'dec.type', 'enc.class': 'dec.class', 'enc.qtype': 'dec.qtype', 'enc.qclass': 'dec.qclass'}, wd)
     kinds = {'enc.rr': 'dec.rr', 'enc.question': 'dec.question', 'enc.name': 'dec.name', 'enc.flags': 'dec.flags',
@@ -498,6 +508,14 @@ def o_C17(cases, rust, lean, V, wd):
 
 def o_C18(cases, rust, lean, V, wd):
     for i, (c, r) in enumerate(zip(cases, rust)):
+        if (c.op.startswith('enc.rr') or c.op.startswith('enc.struct')) and r.startswith('ok '):
+            for p in rr_layout_problems(bytes.fromhex(r[3:])):
+                if p.startswith('compressed name in RDATA of type'):
+                    ty = int(p.split(' ')[6])
+                    if ty in (SVCB, HTTPS): V.known.append((i, 'K1', p))
+                    else: V.failing.append((i, p))
+                    break
+            continue
         if not (c.op.startswith('enc.dns') and r.startswith('ok ')): continue
         probs, w = strict_check(bytes.fromhex(r[3:]), allow_svcb_target_pointer=False)
         for p in probs:
